@@ -2,7 +2,7 @@
 import ast
 
 from ..pm import AnalysisError, norm_src
-from ..flow import CFG, ENTRY, EXIT, attr_chain
+from ..flow import implied_literals, CFG, ENTRY, EXIT, attr_chain
 from ..astutil import replace_node, call_name
 from ..e6_algebra import to_rat, NotScalarArithmetic
 from ..e5_mirror import mirror_equal, mirror_diff
@@ -49,17 +49,11 @@ def return_contexts(cfg, f):
         if not isinstance(st, ast.Return):
             continue
         grad = ovo = None
-        for hdr, br in cfg.control_conditions(st):
-            if isinstance(hdr, ast.If):
-                t = norm_src(hdr.test)
-                if t == grad_param:
-                    grad = br
-                elif t == "self.ovo":
-                    ovo = br
-                elif t == "not self.ovo":
-                    ovo = not br
-                elif t == f"not {grad_param}":
-                    grad = not br
+        for t, br in implied_literals(st):
+            if t == grad_param:
+                grad = br
+            elif t == "self.ovo":
+                ovo = br
         out.append((st, grad, ovo))
     return out
 
@@ -216,7 +210,7 @@ def run(pm, ctx):
             same_defs = True
             for v in names:
                 da, db = rd[gs].get(v, frozenset()), rd[ns].get(v, frozenset())
-                only_g = [d for d in da - db if d is not ENTRY and any(norm_src(h.test) == "return_grad" and br for h, br in cfg.control_conditions(d) if isinstance(h, ast.If))]
+                only_g = [d for d in da - db if d is not ENTRY and ("return_grad", True) in implied_literals(d)]
                 if only_g:
                     same_defs = False
             if same and same_defs:
